@@ -67,8 +67,20 @@ DELETE = re.compile(r"^\s*(lex\.|self\.|graph\.|state_data\.|[a-z_]+\.(push|inse
 
 
 def sh(cmd, cwd=None, timeout=3600, env=None):
-    p = subprocess.run(cmd, shell=True, cwd=cwd, capture_output=True, text=True, timeout=timeout, env=env)
-    return p.returncode, p.stdout + p.stderr
+    """runs in a process group of its own; on timeout the whole group is killed (a mutant can make a test of the
+    suite loop forever: the test binary must not outlive the run)"""
+    import signal
+    p = subprocess.Popen(cmd, shell=True, cwd=cwd, stdout=subprocess.PIPE, stderr=subprocess.STDOUT, text=True, env=env, start_new_session=True)
+    try:
+        out, _ = p.communicate(timeout=timeout)
+        return p.returncode, out
+    except subprocess.TimeoutExpired:
+        try:
+            os.killpg(p.pid, signal.SIGKILL)
+        except ProcessLookupError:
+            pass
+        out, _ = p.communicate()
+        return 124, (out or "") + "\nTIMEOUT: test result: FAILED (did not finish)"
 
 
 def code_lines(path):
@@ -153,7 +165,7 @@ def worker(k, queue, results):
             t0 = time.time()
             sh("git checkout -q -- .", cwd=wt)
             apply(wt, c)
-            rc, out = sh("cargo test --workspace --offline --no-fail-fast 2>&1 | tail -400", cwd=wt, env=env, timeout=1800)
+            rc, out = sh("cargo test --workspace --offline --no-fail-fast 2>&1 | tail -400", cwd=wt, env=env, timeout=900)
             built = "error: could not compile" not in out and "error[" not in out
             ok = built and "FAILED" not in out and "test result: ok" in out and not re.search(r"test result: FAILED|[1-9]\d* failed", out)
             r = dict(c, compiled=built, suite_pass=ok, suite_s=round(time.time() - t0, 1))
